@@ -112,10 +112,53 @@ func (ps *PrintState) Print(str ...string) *PrintState {
 		ps.IndentationDone = true
 	}
 	for _, s := range str {
+		if ps.Compact && glued(ps.lastWritten(), s) {
+			// e.g. a - -b must not become a--b, and the statements a;b must not become ab.
+			_, _ = ps.Out.Write([]byte{' '})
+		}
 		_, _ = ps.Out.Write([]byte(s))
-		ps.last = s
+		if s != "" {
+			ps.last = s
+		}
 	}
 	return ps
+}
+
+// lastWritten returns (the end of) what was last written to the output, even if not through Print().
+func (ps *PrintState) lastWritten() string {
+	if sb, ok := ps.Out.(*strings.Builder); ok {
+		if str := sb.String(); str != "" {
+			return str[len(str)-1:]
+		}
+		return ""
+	}
+	return ps.last
+}
+
+func isWordByte(c byte) bool {
+	return c == '_' || (c >= '0' && c <= '9') || (c >= 'a' && c <= 'z') || (c >= 'A' && c <= 'Z')
+}
+
+// glued tells if printing next right after prev would lex as different tokens than the two printed apart.
+func glued(prev, next string) bool {
+	if prev == "" || next == "" {
+		return false
+	}
+	p, n := prev[len(prev)-1], next[0]
+	if isWordByte(p) && isWordByte(n) {
+		return true
+	}
+	switch p {
+	case '+', '-', '&', '|', '<', '>', '.':
+		return n == p || n == '='
+	case '=':
+		return n == '=' || n == '>'
+	case '!', ':':
+		return n == '='
+	case '/':
+		return n == '/' || n == '*'
+	}
+	return (isWordByte(p) && n == '.' && len(next) > 1 && next[1] >= '0' && next[1] <= '9')
 }
 
 // --- AST nodes
@@ -188,16 +231,78 @@ func isComment(node Node) bool {
 	return ok
 }
 
+// associative operators: a+(b+c) can print as a+b+c without changing the result.
+func associative(t token.Type) bool {
+	switch t { //nolint:exhaustive // only these.
+	case token.PLUS, token.ASTERISK, token.BITAND, token.BITOR, token.BITXOR, token.AND, token.OR:
+		return true
+	default:
+		return false
+	}
+}
+
+// firstToken returns the token the printed form of the node starts with.
+func firstToken(node Node) *token.Token {
+	switch n := node.(type) {
+	case *InfixExpression:
+		return firstToken(n.Left)
+	case *IndexExpression:
+		return firstToken(n.Left)
+	case *CallExpression:
+		return firstToken(n.Function)
+	case *PostfixExpression:
+		return n.Prev
+	case *FunctionLiteral:
+		if n.IsLambda {
+			if len(n.Parameters) == 1 {
+				return firstToken(n.Parameters[0])
+			}
+			return token.ByType(token.LPAREN)
+		}
+	}
+	if node == nil || node.Value() == nil {
+		return nil
+	}
+	return node.Value()
+}
+
+// continuesPrevious is true when a statement starting with that token would be parsed as the continuation
+// of the previous statement's expression (a;-b is not a-b), so a ; is needed in between.
+func continuesPrevious(prev, cur Node) bool {
+	if prev == nil || isComment(prev) {
+		return false
+	}
+	t := firstToken(cur)
+	if t == nil {
+		return false
+	}
+	switch t.Type() { //nolint:exhaustive // only these can continue an expression.
+	case token.MINUS, token.PLUS, token.BITXOR, token.INCR, token.DECR:
+		return true
+	default:
+		return false
+	}
+}
+
 // Compact mode: Skip comments and decide if we need a space separator or not.
 func prettyPrintCompact(ps *PrintState, s Node, i int) bool {
 	if isComment(s) {
 		return true
+	}
+	if i > 0 && continuesPrevious(ps.prev, s) {
+		ps.Print(";")
+		return false
+	}
+	if t := firstToken(s); i > 0 && t != nil && t.Type() == token.LPAREN && ps.last != "}" {
+		_, _ = ps.Out.Write([]byte{' '}) // a (b) is not the call a(b)
+		ps.last = " "
 	}
 	_, prevIsExpr := ps.prev.(*InfixExpression)
 	_, curIsArray := s.(*ArrayLiteral)
 	if curIsArray || (prevIsExpr && ps.last != "}" && ps.last != "]") {
 		if i > 0 {
 			_, _ = ps.Out.Write([]byte{' '})
+			ps.last = " "
 		}
 	}
 	return false
@@ -348,14 +453,24 @@ func (i InfixExpression) PrettyPrint(out *PrintState) *PrintState {
 		out.Print("(")
 	}
 	i.Left.PrettyPrint(out)
-	if out.Compact {
+	if out.Compact || i.Right == nil {
 		out.Print(i.Literal())
 	} else {
 		out.Print(" ", i.Literal(), " ")
 	}
-	if i.Right == nil {
-		out.Print("nil")
-	} else {
+	switch r := i.Right.(type) {
+	case nil: // a[n:] open ended slice, nothing to print.
+	case *InfixExpression:
+		// all binary operators are left associative: a-(b-c) isn't a-b-c.
+		sameLevel := !out.AllParens && Precedences[r.Type()] == Precedences[i.Type()] && !(r.Type() == i.Type() && associative(r.Type()))
+		if sameLevel {
+			out.Print("(")
+		}
+		r.PrettyPrint(out)
+		if sameLevel {
+			out.Print(")")
+		}
+	default:
 		i.Right.PrettyPrint(out)
 	}
 	if needParen {
@@ -456,6 +571,11 @@ type FunctionLiteral struct {
 }
 
 func (fl FunctionLiteral) lambdaPrint(out *PrintState) *PrintState {
+	// As an operand (or a callee) the whole lambda needs parentheses: a+(x=>x), (x=>x)(3).
+	outer := out.ExpressionPrecedence > LOWEST
+	if outer {
+		out.Print("(")
+	}
 	needParen := len(fl.Parameters) != 1
 	if needParen {
 		out.Print("(")
@@ -470,6 +590,9 @@ func (fl FunctionLiteral) lambdaPrint(out *PrintState) *PrintState {
 		out.Print(" => ")
 	}
 	fl.Body.PrettyPrint(out)
+	if outer {
+		out.Print(")")
+	}
 	return out
 }
 
@@ -500,9 +623,10 @@ type CallExpression struct {
 }
 
 func (ce CallExpression) PrettyPrint(out *PrintState) *PrintState {
+	oldExpressionPrecedence := out.ExpressionPrecedence
+	out.ExpressionPrecedence = CALL // so (a+b)(c) or (x=>x)(3) keep their parentheses.
 	ce.Function.PrettyPrint(out)
 	out.Print("(")
-	oldExpressionPrecedence := out.ExpressionPrecedence
 	out.ExpressionPrecedence = LOWEST
 	out.ComaList(ce.Arguments)
 	out.ExpressionPrecedence = oldExpressionPrecedence
